@@ -4,22 +4,26 @@
   All statements are about `Model.IAM` (auth/iam_cache.go over auth/iam_internal.go, one gateway
   process), for EVERY start image, EVERY history and EVERY interleaving (`List Act`: invocations,
   atomic steps of any in-flight call, clock advances, cache pruning), proved by invariants over
-  `run` — nothing is decided over samples.
+  `run` — nothing is decided over samples.  No side condition on histories, schedules or clock.
 
-  Revisions (`Variant`): `.current` is /repo as it is; `copyIds` = docs/C17-fix-1.diff;
-  `invalidate` = docs/C17-fix-2.diff; `cache := false` = --iam-cache-disable.
+  `Variant.current` is /repo as it is (account changes invalidate the cache entry and bump a
+  generation; the miss path stores what it fetched only under the generation it saw);
+  `Variant.cacheDisabled` is --iam-cache-disable.
 
-  * `seq_refines_map_*`      sequential histories behave like the plain map access → account
-  * `lookup_after_ack_*`     a lookup invoked when every change of its key has been acknowledged
-                             answers the store's state — all attributes — at any clock value,
-                             whatever else is in flight
-  * `mutations_serialised`   concurrent changes are applied one after the other to the image the
-                             predecessor left (none lost), the file is a complete image whenever
-                             the lock is free, no temp file stays
+  * `seq_refines_map`          sequential histories behave like the plain map access → account
+  * `lookup_after_ack`         a lookup invoked when every change of its key has been acknowledged
+                               answers the store's state — all attributes — at any clock value,
+                               whatever else is in flight
+  * `mutations_serialised`     concurrent changes are applied one after the other to the image the
+                               predecessor left (none lost), the file is a complete image whenever
+                               the lock is free, no temp file stays
   * `serial_respects_real_time`, `reader_sees_complete_image`, `call_returns`
 
-  The unchanged code violates the first two at full strength (Open/C17.lean); for it the
-  `_partial` forms hold, with the explicit, decidable side condition `QuietRun` (`quietRunB`).
+  The `_gen` forms are stated for every `Variant`, i.e. also for the REGRESSION MODEL
+  `Variant.oldWriteThrough` (the code before 6f25651), for which they need the side condition
+  `QuietRun` / `CreatesOk`; the harness uses that model only to explain the schedules that fail
+  when the old behaviour comes back.  Nothing here or in Open/C17.lean says that the current code
+  violates C17.
 -/
 import Vgw.Lemmas.IAMQuietB
 namespace Vgw.Props.C17
@@ -47,7 +51,8 @@ def SeqRefines (cfg : Cfg) : Spec.IAM.Accts → List SeqAct → List (Option Res
   | m, .gc :: rest, rs => SeqRefines cfg m rest rs
   | _, _, _ => False
 
-/-- the entries CreateAccount caches are the accounts -/
+/-- regression model only: the entries its CreateAccount caches are the accounts (void for the
+current code: `NeedsQuiet .current` is false) -/
 def CreatesOk (v : Variant) (h : List SeqAct) : Prop :=
   NeedsQuiet v → ∀ a, SeqAct.call (.create a) ∈ h → entryOf v a = a
 
@@ -102,44 +107,34 @@ theorem seq_refines_aux {v : Variant} {cfg : Cfg} {s0 : Store} (h : List SeqAct)
     | gc =>
       exact ih (hF.act .gc (fun _ => trivial)) (fun j c hj => hQ j c hj) hN hCrest
 
-/-- SEQUENTIAL REFINEMENT (every revision): on every start image, for every sequential history
-of create / get / update / delete / list calls, clock advances and pruning runs, every call
-returns, and returns what the plain map returns — provided, for the write-through revisions,
-that the entry CreateAccount caches equals the account (`CreatesOk`). -/
+/-- general form (every `Variant`, the regression model included, for which `CreatesOk` is a real
+condition; for the current code it is void: `createsOk_of_invalidate`) -/
 theorem seq_refines_map_gen (v : Variant) (cfg : Cfg) (s : Store) (now : Nat) (hs : Start cfg s)
     (h : List SeqAct) (hC : CreatesOk v h) :
     SeqRefines cfg (abs s) h (seqRun v cfg (init s now) h) :=
   seq_refines_aux h (FullInv.init v cfg s now hs.rootFree)
     (fun j c hj => by simp [Model.IAM.init] at hj) hs.nodup hC
 
-/-- the statement at full strength for the unchanged code -/
-def seq_refines_map_full : Prop :=
-  ∀ (cfg : Cfg) (s : Store) (now : Nat) (h : List SeqAct), Start cfg s →
-    SeqRefines cfg (abs s) h (seqRun .current cfg (init s now) h)
-
-/-- what holds for the unchanged code: histories whose creates carry uid = gid = 0 -/
-theorem seq_refines_map_partial (cfg : Cfg) (s : Store) (now : Nat) (h : List SeqAct) (hs : Start cfg s)
-    (hz : ∀ a, SeqAct.call (.create a) ∈ h → a.uid = 0 ∧ a.gid = 0) :
-    SeqRefines cfg (abs s) h (seqRun .current cfg (init s now) h) := by
-  refine seq_refines_map_gen .current cfg s now hs h ?_
-  intro _ a ha
-  obtain ⟨hu, hg⟩ := hz a ha
-  cases a with
-  | mk access secret role uid gid =>
-    simp only at hu hg
-    subst hu; subst hg
-    rfl
-
-/-- with either repair, or with the cache disabled, without side condition -/
-theorem seq_refines_map_fixed (v : Variant) (hv : v.copyIds = true ∨ v.invalidate = true ∨ v.cache = false)
-    (cfg : Cfg) (s : Store) (now : Nat) (h : List SeqAct) (hs : Start cfg s) :
-    SeqRefines cfg (abs s) h (seqRun v cfg (init s now) h) := by
-  refine seq_refines_map_gen v cfg s now hs h ?_
+/-- variants without side condition: everything but the write-through regression model -/
+theorem createsOk_of_invalidate {v : Variant} (hv : v.invalidate = true ∨ v.cache = false) (h : List SeqAct) :
+    CreatesOk v h := by
   intro hn a _
-  rcases hv with h1 | h1 | h1
-  · simp [entryOf, h1]
+  rcases hv with h1 | h1
   · rw [hn.2] at h1; cases h1
   · rw [hn.1] at h1; cases h1
+
+/-- SEQUENTIAL REFINEMENT of the current code: on every start image, for every sequential history
+of create / get / update / delete / list calls, clock advances and pruning runs, every answer is
+the plain map's answer (a new account with all its attributes at once, a changed secret, a
+deleted account), and listings are listings of the map. -/
+theorem seq_refines_map (cfg : Cfg) (s : Store) (now : Nat) (h : List SeqAct) (hs : Start cfg s) :
+    SeqRefines cfg (abs s) h (seqRun .current cfg (init s now) h) :=
+  seq_refines_map_gen .current cfg s now hs h (createsOk_of_invalidate (Or.inl rfl) h)
+
+/-- the same with --iam-cache-disable -/
+theorem seq_refines_map_cache_disabled (cfg : Cfg) (s : Store) (now : Nat) (h : List SeqAct) (hs : Start cfg s) :
+    SeqRefines cfg (abs s) h (seqRun .cacheDisabled cfg (init s now) h) :=
+  seq_refines_map_gen .cacheDisabled cfg s now hs h (createsOk_of_invalidate (Or.inr rfl) h)
 
 theorem seqRefines_some (cfg : Cfg) : ∀ (h : List SeqAct) (m : Spec.IAM.Accts) (rs : List (Option Res)),
     SeqRefines cfg m h rs → ∀ r ∈ rs, r ≠ none
@@ -161,10 +156,10 @@ theorem seqRefines_some (cfg : Cfg) : ∀ (h : List SeqAct) (m : Spec.IAM.Accts)
   | .tick _ :: rest, m, rs, h => seqRefines_some cfg rest m rs h
   | .gc :: rest, m, rs, h => seqRefines_some cfg rest m rs h
 
-/-- every call of a sequential history returns -/
-theorem call_returns (v : Variant) (cfg : Cfg) (s : Store) (now : Nat) (hs : Start cfg s) (h : List SeqAct)
-    (hC : CreatesOk v h) : ∀ r ∈ seqRun v cfg (init s now) h, r ≠ none :=
-  seqRefines_some cfg h _ _ (seq_refines_map_gen v cfg s now hs h hC)
+/-- every call of a sequential history returns (no call is left blocked on the store mutex) -/
+theorem call_returns (cfg : Cfg) (s : Store) (now : Nat) (hs : Start cfg s) (h : List SeqAct) :
+    ∀ r ∈ seqRun .current cfg (init s now) h, r ≠ none :=
+  seqRefines_some cfg h _ _ (seq_refines_map cfg s now h hs)
 
 /-! ## a lookup after the acknowledgement sees the new state -/
 
@@ -193,29 +188,15 @@ theorem lookup_after_ack_gen (v : Variant) (cfg : Cfg) (s : Store) (now : Nat) (
   simp only [Spec.IAM.apply, ← look_eq_spec]
   cases look cfg σ₁.committed k <;> rfl
 
-/-- the statement at full strength for the unchanged code -/
-def lookup_after_ack_full : Prop :=
-  ∀ (cfg : Cfg) (s : Store) (now : Nat) (acts₁ acts₂ : List Act), Start cfg s →
-    LookupAfterAck .current cfg s now acts₁ acts₂
-
-/-- what holds for the unchanged code: schedules in which no change of a key is renamed into place
-while a lookup of that key sits between its fetch and its cache.set or another change of that key
-still owes the cache its step, and in which created accounts carry uid = gid = 0 (`QuietRun`,
-decidable: `quietRunB`). -/
-theorem lookup_after_ack_partial (cfg : Cfg) (s : Store) (now : Nat) (acts₁ acts₂ : List Act) (hs : Start cfg s)
-    (hq : QuietRun .current cfg (init s now) (acts₁ ++ acts₂)) :
+/-- LOOKUP AFTER ACKNOWLEDGEMENT, current code, every schedule: no side condition. -/
+theorem lookup_after_ack (cfg : Cfg) (s : Store) (now : Nat) (acts₁ acts₂ : List Act) (hs : Start cfg s) :
     LookupAfterAck .current cfg s now acts₁ acts₂ :=
-  lookup_after_ack_gen .current cfg s now acts₁ acts₂ hs (fun _ => hq)
+  lookup_after_ack_gen .current cfg s now acts₁ acts₂ hs (fun hn => by cases hn.2)
 
-/-- with the cache disabled, or with fix 2 (invalidate + generation guard): every schedule -/
-theorem lookup_after_ack_fixed (v : Variant) (hv : v.invalidate = true ∨ v.cache = false)
-    (cfg : Cfg) (s : Store) (now : Nat) (acts₁ acts₂ : List Act) (hs : Start cfg s) :
-    LookupAfterAck v cfg s now acts₁ acts₂ := by
-  refine lookup_after_ack_gen v cfg s now acts₁ acts₂ hs ?_
-  intro hn
-  rcases hv with h | h
-  · rw [hn.2] at h; cases h
-  · rw [hn.1] at h; cases h
+/-- the same with --iam-cache-disable -/
+theorem lookup_after_ack_cache_disabled (cfg : Cfg) (s : Store) (now : Nat) (acts₁ acts₂ : List Act) (hs : Start cfg s) :
+    LookupAfterAck .cacheDisabled cfg s now acts₁ acts₂ :=
+  lookup_after_ack_gen .cacheDisabled cfg s now acts₁ acts₂ hs (fun hn => by cases hn.1)
 
 /-! ## concurrent changes are serialised; the store file is always a complete image -/
 
@@ -321,46 +302,41 @@ section Examples
 
 def rootA : Account := { access := [114], secret := [1], role := .admin }
 def cfgA : Cfg := { root := rootA, ttl := 5 }
-def accA : Account := { access := [97], secret := [2], role := .user, uid := 0, gid := 0 }
+/-- account `a`: secret 2, role userplus, uid 5, gid 1000 -/
 def accB : Account := { access := [97], secret := [2], role := .userplus, uid := 5, gid := 1000 }
-
+def accA : Account := { access := [97], secret := [7], role := .user, uid := 1, gid := 2 }
 def accC : Account := { access := [98], secret := [4], role := .admin }
 
 theorem startA : Start cfgA [accB, accC] := ⟨by decide, by simp [keysNodup, accB, accC]⟩
 
-/-- `seq_refines_map_partial` on a history with create, update, expiry, delete (test) -/
-example : SeqRefines cfgA (abs []) [.call (.create accA), .call (.get [97]), .tick 6, .call (.update [97] { secret := some [3] }),
-    .call (.get [97]), .call .list, .call (.delete [97]), .call (.get [97])]
-    (seqRun .current cfgA (init []) [.call (.create accA), .call (.get [97]), .tick 6, .call (.update [97] { secret := some [3] }),
-      .call (.get [97]), .call .list, .call (.delete [97]), .call (.get [97])]) :=
-  seq_refines_map_partial cfgA [] 0 _ ⟨by decide, by simp [keysNodup]⟩ (by
-    intro a ha
-    simp only [List.mem_cons, SeqAct.call.injEq, Op.create.injEq, reduceCtorEq, List.not_mem_nil, or_false, false_or] at ha
-    subst ha; exact ⟨rfl, rfl⟩)
+def histA : List SeqAct := [.call (.create accB), .call (.get [97]), .tick 6, .call (.update [97] { secret := some [3], uid := some 9 }),
+  .call (.get [97]), .call .list, .call (.delete [97]), .call (.get [97])]
 
-/-- the answers of that history, computed (test) -/
-example : seqRun .current cfgA (init []) [.call (.create accA), .call (.get [97]), .tick 6, .call (.update [97] { secret := some [3] }), .call (.get [97])]
-    = [some .ok, some (.acct accA), some .ok, some (.acct { accA with secret := [3] })] := by decide
+/-- `seq_refines_map` on a history with create (uid/gid ≠ 0), expiry, update, delete (instance) -/
+example : SeqRefines cfgA (abs []) histA (seqRun .current cfgA (init []) histA) :=
+  seq_refines_map cfgA [] 0 histA ⟨by decide, by simp [keysNodup]⟩
 
-/-- a quiet concurrent schedule: a delete runs to its acknowledgement while an unrelated lookup
-is parked behind its fetch; the lookup invoked afterwards is answered "no such user" (test of the
-hypotheses of `lookup_after_ack_partial`) -/
-def acts1 : List Act := [.invoke (.get [98]), .step 0, .step 0, .step 0, .step 0, .invoke (.delete [97])] ++ List.replicate 9 (.step 1)
-def acts2 : List Act := [.tick 3, .invoke (.get [97]), .step 2, .step 0, .step 2, .step 2, .step 2]
+/-- the answers of that history, computed: the fresh account answers with ALL its attributes, the
+update shows at once, the deleted account is gone (test) -/
+example : seqRun .current cfgA (init []) histA
+    = [some .ok, some (.acct accB), some .ok, some (.acct { accB with secret := [3], uid := 9 }),
+       some (.accts [{ accB with secret := [3], uid := 9 }]), some .ok, some .noSuchUser] := by decide
 
-example : quietRunB .current cfgA (init [accB, accC]) (acts1 ++ acts2) = true := by decide
-example : NoMut (run .current cfgA (init [accB, accC]) acts1) [97] := by
-  intro j c hj hm hk
-  have : j < 2 := by
-    have := (List.getElem?_eq_some_iff.mp hj).1
-    have e : (run .current cfgA (init [accB, accC]) acts1).calls.length = 2 := by decide
-    omega
-  match j, this with
-  | 0, _ => have e : (run .current cfgA (init [accB, accC]) acts1).calls[0]? = some ⟨.get [98], .gFetched accC 0⟩ := by decide
-            rw [e] at hj; cases hj; cases hm
-  | 1, _ => have e : (run .current cfgA (init [accB, accC]) acts1).calls[1]? = some ⟨.delete [97], .done .ok⟩ := by decide
-            rw [e] at hj; cases hj; rfl
-example : (run .current cfgA (init [accB, accC]) (acts1 ++ acts2)).calls[2]? = some ⟨.get [97], .done .noSuchUser⟩ := by decide
+/-- `lookup_after_ack`, a racy instance: lookup 0 of `a` is parked between its fetch and its
+cache.set (it holds the OLD account), delete 1 of `a` runs to its acknowledgement, lookup 0
+continues, the clock moves — lookup 2, invoked after the acknowledgement, answers "no such user"
+(the hypotheses are met, the conclusion is computed; test) -/
+def acts1 : List Act := [.invoke (.get [97]), .step 0, .step 0, .step 0, .step 0, .invoke (.delete [97])] ++ List.replicate 9 (.step 1)
+def acts2 : List Act := [.step 0, .tick 3, .invoke (.get [97]), .step 2, .step 2, .step 2, .step 2]
+
+example : (run .current cfgA (init [accB, accC]) acts1).calls[0]? = some ⟨.get [97], .gFetched accB 0⟩ := by decide
+example : (run .current cfgA (init [accB, accC]) acts1).calls[1]? = some ⟨.delete [97], .done .ok⟩ := by decide
+example : NoMut (run .current cfgA (init [accB, accC]) acts1) [97] := noMutB_sound (by decide)
+example : (run .current cfgA (run .current cfgA (init [accB, accC]) acts1) acts2).calls[2]? = some ⟨.get [97], .done .noSuchUser⟩ := by decide
+/-- … and that is what `lookup_after_ack` says about it (instance of the theorem) -/
+example : (Spec.IAM.apply cfgA.root (abs (run .current cfgA (init [accB, accC]) acts1).committed) (.get [97])).2 = .noSuchUser :=
+  (lookup_after_ack cfgA [accB, accC] 0 acts1 acts2 startA [97] (noMutB_sound (by decide))
+    (by intro op hop hm; simp [acts2] at hop; subst hop; cases hm) 2 .noSuchUser (by decide) (by decide)).symm
 
 /-- `mutations_serialised`: two creates of the same key race; exactly one wins, the log says which (test) -/
 example : (run .current cfgA (init []) [.invoke (.create accA), .invoke (.create accB), .step 1, .step 0, .step 1, .step 1, .step 1,
